@@ -79,6 +79,18 @@ def r_dstr(P, chk):
     if u is None:
         raise AnalysisBroken("d_string.c is gone")
     mods = P.mods
+    # call sites that use the documented "to the end" form: a constant -1 for a size_t parameter of a d_string.c function
+    minus1_callers = {}
+    for g in P.all_funcs:
+        if not P.first_party(g):
+            continue
+        for c in g.calls():
+            h = u.funcs.get(c.get("callee") or "")
+            if h is None:
+                continue
+            for i, a in enumerate(c["c"][1:]):
+                if i < len(h.params) and "size_t" in h.params[i][1] and const_value(a) in (-1, 2 ** 64 - 1):
+                    minus1_callers.setdefault((h.name, i), []).append("%s %s" % (g.where(c), g.name))
     n_funcs = 0
     for f in u.funcs.values():
         b = _dstring_param(f)
@@ -179,6 +191,14 @@ def r_dstr(P, chk):
                 continue
             tests = [x for x in f.walk() if x["k"] == "BinaryOperator" and x["op"] == "=="
                      and key(x["c"][0]) == p[0] and const_value(x["c"][1]) in (-1, 2 ** 64 - 1)]
+            pidx = [i for i, q in enumerate(f.params) if q[0] == p[0]][0]
+            users = minus1_callers.get((f.name, pidx), [])
+            if users:
+                chk.obligation(rid, "%s: `%s` may be -1 ('to the end': %s) and the function tests for it" % (
+                    f.name, p[0], users[0]), bool(tests))
+                if not tests:
+                    chk.violation(rid, "dstr:minus1:%s" % f.name, f.where(), "%s is called with %s == -1 ('to the end', e.g. %s) "
+                                  "but no longer tests for that form: the wrapped value is used in arithmetic" % (f.name, p[0], users[0]))
             if not tests:
                 continue
             arith = [x for x in f.walk() if x["k"] == "BinaryOperator" and x["op"] in ("+", "-")
